@@ -52,6 +52,7 @@ def run(ctx):
     _run_main6(ctx)
     _round6(ctx)
     _round7(ctx)
+    _round10(ctx)
 
 
 def _run_main6(ctx):
@@ -195,3 +196,10 @@ def _round7(ctx):
     from rules import arms as A
     with ctx.rule('R19.7', "user and password reach the PLAIN response in that order (shared with C16)", floor=1) as r:
         A.include(ctx, r, 'c16', 'R16.3', pick=('Auth::response',))
+
+
+def _round10(ctx):
+    """Rules of other properties that are necessary conditions of this one too (found by seeding round 10: two cooperating sites, indirection)."""
+    from rules import arms as A
+    with ctx.rule('R19.8', "the URL's tuning parameters are the ones negotiated: the Tune step builds TuneOk and Open from the same, untouched options (shared with C16)", floor=2) as r:
+        A.include(ctx, r, 'c16', 'R16.1', pick=('Tune',))
